@@ -1,5 +1,5 @@
 """C17 - libcola: all-pairs shortest paths and the layout distance matrix are exact (DESIGN 5.17).
-proof: Graph/{Paths,FloydWarshall,Dijkstra,PairingHeap,BellmanFord}.v (theorems about hand-written models of
+proof: Graph/{Paths,FloydWarshall,Dijkstra,PairingHeap,BellmanFord,ApspAgree}.v (theorems about hand-written models of
 floyd_warshall / dijkstra / johnsons / PairingHeap / computePathLengths);
 tie (C): the compiled functions from /repo's working tree are run on generated multigraphs / heap op sequences and
 compared exactly with the extracted models; search side: the extracted, verified Bellman-Ford oracle (bf_correct)
@@ -861,7 +861,7 @@ META = {
                 'repaired initialisation = the shortest-path metric `dist`, None exactly for unreachable pairs; diagonal 0; symmetric), '
                 'fw_correct (the snapshot initialisation, only under no_self_loops /\\ parallel_equal) with fw_refuted (witness of defect F-a), '
                 'dijkstra_sound / dijkstra_optimal (generic in vertex type, adjacency function, map and priority queue), johnsons_correct, '
-                'johnsons_total, johnsons_eq_fw*, path_lengths_scaled (D = idealLength x dist over lengths with non-positive entries replaced '
+                'johnsons_total, johnsons_eq_fw*, johnsons_diag_zero / johnsons_symmetric / johnsons_sentinel_iff / fw_fixed_sentinel_iff / apsp_all_agree (Graph/ApspAgree.v: the matrix johnsons returns has a zero diagonal, is symmetric, holds the unreachable sentinel exactly for pairs without any walk, and floyd_warshall, johnsons and the Bellman-Ford oracle agree entry by entry), path_lengths_scaled (D = idealLength x dist over lengths with non-positive entries replaced '
                 'by 1, G = 0/1/2), heap_min (+ multiset effect of insert / deleteMin / decreaseKey / merge), bf_correct (the oracle). '
                 'Tie: on every run the compiled floyd_warshall / johnsons / dijkstra / ConstrainedFDLayout::readLinearD,G / PairingHeap from '
                 "/repo's working tree are compared exactly with the extracted models (graphs up to 60 nodes quick / 300 thorough, dyadic "
